@@ -90,7 +90,7 @@ native_unit("fri_native", "winter-fri", "fri", "native/fri_bounded.rs", ["C15", 
             "apply_drp satisfies the folding identity against a coefficient-domain reference (coefficients folded with powers of the challenge, evaluated by Horner over offset^N * <g^N>) for N in {2,4,8,16}, domains up to 256, offsets {1, generator, 5, seeded}, base fields and extensions; a transcript with the last layer and its commitment dropped or duplicated (consistent in itself, inconsistent with the options' folding schedule) is refused without a panic; honest FRI proofs are accepted after serialization for every grid configuration (reused prover, degree == bound / 0 / low, 1..40 queries incl. repeated positions); polynomials above the claimed bound, proofs with a flipped bit and claimed evaluations that differ from the committed layer at a single queried position are refused; nothing panics; read_layer_queries returns values iff verify_batch accepts the layer opening for exactly the given positions and commitment (honest, empty, duplicated, out-of-range, dropped, repeated positions; right and wrong commitment); DefaultVerifierChannel hands out exactly the commitments it was given and refuses a list without the remainder commitment; proofs with exactly 255 distinct folded positions (255 positions, 305 with repetitions) are accepted; one-layer proofs whose trees are laid out for 1 / 2 / 4 partitions are accepted when honest and refused when the rows were folded at the x-coordinates of the Merkle slots",
             "NATIVE EXECUTION, not a proof: trace lengths 2^3..2^7 x blowup {2,4,8} x folding {2,4,8,16} x remainder degree {0,1,3,7,15,31} (well-formed schedules) over the 128- and 64-bit fields (every other trace length also over their quadratic extensions and the cubic extension of the 64-bit field) with Blake3_256, seeded polynomials; per configuration 3 runs with one claimed evaluation changed and 6 with a flipped proof bit; 4 runs with layers above 64 KiB (folding 16, quadratic extension of f128, up to 255 queries); 5 configurations x all admissible bounds for the above-bound part; 3 forced position lists on a 16384-point domain; 5 hand-assembled partitioned proofs (degree bound 7, domain 64, folding 2)")
 
-verus_unit("friv", "friv", ["C15", "C05"], ["folding::fold_positions (every list of positions, every domain)", "utils::map_positions_to_indexes (every list of positions below the folded domain size, every partition count: element i is (p mod P) * (T / P) + p div P, the identity for P == 1; no overflow; for P dividing T distinct positions get distinct leaves below T)"])
+verus_unit("friv", "friv", ["C15", "C05"], ["folding::fold_positions (every list of positions, every domain)", "utils::map_positions_to_indexes (every list of positions below the folded domain size, every partition count: element i is (p mod P) * (T / P) + p div P, the identity for P == 1; no overflow; for P dividing T distinct positions get distinct leaves below T)", "verifier::get_query_values (every list of positions, folded positions containing each image, row width N dividing the domain size: value k is cell position_k / row_length of the row opened for the first occurrence of position_k mod row_length; one value per position in order; the unwrap never fails, no index out of range; Iterator::position is an assumed std contract)"])
 verus_unit("assertv", "assertv", ["C16"], ["Assertion::overlaps_with (every trace length)", "Assertion::is_single"])
 
 native_unit("boundary_native", "winter-air", "air", "native/boundary_bounded.rs", ["C16", "C17"],
